@@ -140,7 +140,7 @@ def _init_unproved():
 _init_unproved()
 NAME_MODES = ['str', 'int0', 'empty0']
 REQUIRED_COUNTERS = (['score_fraction_counts', 'score_large_factor', 'scale', 'near_tie', 'equal_rational', 'beyond_2^53', 'modelled',
-                      'lr_equal_remainders', 'threshold_boundary', 'exact_half_or_quota', 'odd_total_half', 'even_factor']
+                      'lr_equal_remainders', 'threshold_boundary', 'coef_tie', 'coef_as_decimal', 'coef_as_float', 'exact_half_or_quota', 'odd_total_half', 'even_factor']
                      + ['m:' + f for f in PROVED_FAMILIES])      # every proved family is also run through its Lean model
 RULE = ('every scale-free evaluator family of the quantifier (plurality, divisor methods, largest remainder with exact quotas, '
         'Condorcet methods, STV-Gregory with Hare quota, Bucklin/Oklahoma, positional, approval, score, majority judgment, STAR, '
@@ -265,6 +265,14 @@ def generate(rng, tier):
             cands = fam_mod.candidates_of('score', prof)
             yield {'op': 'scale', 'family': f.name, 'prof': prof, 'n': rng.randint(1, len(cands)), 'k': str(10 ** 5),
                    '_tags': ['scale', 'score_large_factor']}
+    # exact ties created by a modified first divisor given as Decimal / float: A = p*k votes against B = 2*q*k with coefficient
+    # p/q: A's first quotient equals B's second one, whatever the magnitude; one vote more / fewer for A decides the seat
+    for t in range(24 if tier == 'quick' else 240):
+        coef, kind = [('1.4', 'decimal'), ('1.42', 'decimal'), ('1.4142136', 'decimal'), ('1.0000001', 'decimal'),
+                      ('1.23456789012345678901', 'decimal'), (repr(1.4), 'float'), (repr(1.1), 'float'), ('1.5', 'float')][t % 8]
+        k = (MULTIPLIERS + BIG_MULTIPLIERS)[(t // 8) % (len(MULTIPLIERS) + len(BIG_MULTIPLIERS))]
+        yield {'op': 'coef_tie', 'coef': coef, 'kind': kind, 'k': str(k), 'delta': [0, 0, 1, -1][t % 4 if t >= 8 else 0],
+               '_tags': ['coef_tie', 'coef_as_' + kind] + (['beyond_2^53'] if k > 2 ** 53 else [])}
     for t in range(60 if tier == 'quick' else 600):
         v = rng.choice([0, 5, 10 ** 9, 2 ** 53, 10 ** 25, 10 ** 30]) + rng.randint(0, 3)
         if rng.random() < 0.3:
@@ -284,6 +292,15 @@ def impl(case):
         base = fam_mod.run_family(f, case['prof'], case['n'], NAMES)
         scaled = fam_mod.run_family(f, fam_mod.scale(case['prof'], Fraction(case['k'])), case['n'], NAMES)
         return {'base': base, 'scaled': scaled}
+    if case['op'] == 'coef_tie':
+        import votelib.evaluate.proportional as vp
+        import votelib.component.divisor as vd
+        from decimal import Decimal
+        c, a, b = _coef_tie(case)
+        given = Decimal(case['coef']) if case['kind'] == 'decimal' else float(case['coef'])
+        nm = Names(['a', 'b'])
+        ev = vp.HighestAverages(vd.modified_first_coef(vd.d_hondt, given))
+        return guarded(lambda: enc_distribution(ev.evaluate({'a': a, 'b': b}, 2), nm))
     if case['op'] == 'near_tie':
         v = Fraction(case['v'])
         v = int(v) if v.denominator == 1 else v
@@ -298,10 +315,24 @@ def impl(case):
     raise ValueError(case['op'])
 
 
+def _coef_tie(case):
+    """exact coefficient p/q (of the Decimal text, or of the double), A = p*k + delta, B = 2*q*k"""
+    from decimal import Decimal
+    c = Fraction(Decimal(case['coef'])) if case['kind'] == 'decimal' else Fraction(float(case['coef']))
+    k = int(case['k'])
+    return c, c.numerator * k + case['delta'], 2 * c.denominator * k
+
+
 def oracle(case, obs):
     out = []
     if fam_mod.has_float(obs):
         out.append(('float_returned', str(obs)[:200]))
+    if case['op'] == 'coef_tie':
+        exp = ([[1, 1], [{'tie': [0, 1]}, 1]] if case['delta'] == 0 else [[0, 1], [1, 1]] if case['delta'] > 0 else [[1, 2]])
+        if canon(obs) != canon(exp):
+            out.append(('coef_tie_misjudged', f"coefficient {case['coef']} given as {case['kind']}, k={case['k']}, delta={case['delta']}: "
+                                              f'{json.dumps(canon(obs))} instead of {json.dumps(canon(exp))}'))
+        return out
     if case['op'] == 'scale':
         f = fams()[case['family']]
         b, s = canon(obs['base']), canon(obs['scaled'])
@@ -379,6 +410,10 @@ def model_line(case):
             return {'op': f[:2], 'quota': f[3:], 'accept_equal': True, 'on_overaward': 'error', 'n': case['n'], 'votes': prof,
                     'prev': [], 'max': []}
         return None
+    if case['op'] == 'coef_tie':
+        c, a, b = _coef_tie(case)
+        return {'op': 'ha', 'divisor': 'd_hondt', 'first_coef': num_str(c), 'votes': [[0, str(a)], [1, str(b)]], 'n': 2,
+                'prev': [], 'max': []}
     if case['op'] == 'near_tie':
         v = Fraction(case['v'])
         items = [[0, num_str(v + 1)], [1, num_str(v)]]
